@@ -70,10 +70,14 @@ def dumpSpec (idna : Idna) (o : Option Url) : String :=
   | some u => publicDump idna u
   | none => "I"
 
+/-- the params object of an invalid URL is not compared (after a move its list is a moved-from
+    std::list, "valid but unspecified"); it becomes defined again with the next successful parse,
+    assignment or href -/
 def spDump (o : UrlObj) : String :=
-  match o.sp with
-  | some p => s!" sp={pairsStr p.list} so={b01 p.isSorted}"
-  | none => " sp=~"
+  match o.url, o.sp with
+  | some _, some p => s!" sp={pairsStr p.list} so={b01 p.isSorted}"
+  | some _, none => " sp=~"
+  | none, _ => " sp=?"
 
 /-! ### machine state -/
 structure St where
@@ -126,15 +130,18 @@ def exec (idna : Idna) (st : St) (toks : List String) : St × String :=
     let u := parseUnits units
     let bI := resolveBase idna st base false
     let bS := resolveBase idna st base true
-    let (o', ok) := st.objs[k]!.parse idna e u bI
+    let strBase := base.startsWith "t"
+    -- string-base overloads parse the base first and return its error without touching the object
+    let (o', ok) : UrlObj × Bool :=
+      if strBase && bI == some none then (st.objs[k]!, false) else st.objs[k]!.parse idna e u bI
     let cp := match bI with
       | some none => false
       | _ => canParse idna e u (bI.bind id)
-    let sres : Option Url := match bS with
-      | some none => none
-      | _ => Spec.apiParse idna e u (bS.bind id)
+    let (sres, sok) : Option Url × Bool := match bS with
+      | some none => (if strBase then st.specs[k]! else none, false)
+      | _ => let r := Spec.apiParse idna e u (bS.bind id); (r, r.isSome)
     ({ st with objs := st.objs.set! k o', specs := st.specs.set! k sres },
-     s!"ok={b01 ok} cp={b01 cp} {dumpImpl idna o'.url}{spDump o'} ## ok={b01 sres.isSome} {dumpSpec idna sres}")
+     s!"ok={b01 ok} cp={b01 cp} {dumpImpl idna o'.url}{spDump o'} ## ok={b01 sok} {dumpSpec idna sres}")
   | ["set", slot, setter, enc, units] =>
     let k := slot.toNat!
     let e := parseEnc enc
@@ -149,6 +156,9 @@ def exec (idna : Idna) (st : St) (toks : List String) : St × String :=
   | ["dump", slot] =>
     let k := slot.toNat!
     (st, s!"{dumpImpl idna st.objs[k]!.url}{spDump st.objs[k]!} ## {dumpSpec idna st.specs[k]!}")
+  | ["probe", slot] =>
+    let k := slot.toNat!
+    (st, (if st.objs[k]!.url.isSome then "probe=ok" else "probe=invalid") ++ " ## ~")
   | ["obj", op, dst, src] =>
     let d := dst.toNat!
     let s := src.toNat!
@@ -210,7 +220,8 @@ def exec (idna : Idna) (st : St) (toks : List String) : St × String :=
         let src := st.params[j]!
         (o.spApply (fun _ => { list := src.list, isSorted := src.isSorted }), "-")
       | _ => (o, "?")
-    let st' := { st with objs := st.objs.set! k o' }
+    -- the Standard has no separate answer for these operations: the Spec slot follows the model
+    let st' := { st with objs := st.objs.set! k o', specs := st.specs.set! k o'.url }
     let st' := if op == "safea" then
         let j := (args.getD 0 "0").toNat!
         { st' with params := st'.params.set! j { list := [], isSorted := st'.params[j]!.isSorted } }
@@ -247,13 +258,13 @@ def exec (idna : Idna) (st : St) (toks : List String) : St × String :=
       | "del2" => (p.del2 (arg 0) (arg 1), "-", specDump (Spec.spDelete2 (specList p) (sarg 0) (sarg 1)))
       | "remove" => let q := p.del (arg 0); (q, toString (p.list.length - q.list.length), specDump (Spec.spDelete (specList p) (sarg 0)))
       | "remove2" => let q := p.del2 (arg 0) (arg 1); (q, toString (p.list.length - q.list.length), specDump (Spec.spDelete2 (specList p) (sarg 0) (sarg 1)))
-      | "has" => (p, b01 (p.has (arg 0)), "r=" ++ b01 (Spec.spHas (specList p) (sarg 0)))
-      | "has2" => (p, b01 (p.has2 (arg 0) (arg 1)), "r=" ++ b01 (Spec.spHas2 (specList p) (sarg 0) (sarg 1)))
-      | "getv" => (p, optBytes (p.get (arg 0)), "r=" ++ optBytes ((Spec.spGet (specList p) (sarg 0)).map Spec.utf8Encode))
+      | "has" => (p, b01 (p.has (arg 0)), "r=" ++ b01 (Spec.spHas (specList p) (sarg 0)) ++ " " ++ specDump (specList p))
+      | "has2" => (p, b01 (p.has2 (arg 0) (arg 1)), "r=" ++ b01 (Spec.spHas2 (specList p) (sarg 0) (sarg 1)) ++ " " ++ specDump (specList p))
+      | "getv" => (p, optBytes (p.get (arg 0)), "r=" ++ optBytes ((Spec.spGet (specList p) (sarg 0)).map Spec.utf8Encode) ++ " " ++ specDump (specList p))
       | "getall" =>
         let l := p.getAll (arg 0)
         let sl := (Spec.spGetAll (specList p) (sarg 0)).map Spec.utf8Encode
-        (p, (if l.isEmpty then "-" else ",".intercalate (l.map hx)), "r=" ++ (if sl.isEmpty then "-" else ",".intercalate (sl.map hx)))
+        (p, (if l.isEmpty then "-" else ",".intercalate (l.map hx)), "r=" ++ (if sl.isEmpty then "-" else ",".intercalate (sl.map hx)) ++ " " ++ specDump (specList p))
       | "sort" => (p.sort, "-", specDump (Spec.spSort (specList p)))
       | "clear" => (p.clear, "-", specDump [])
       | "size" => (p, toString p.list.length, "~")
@@ -323,6 +334,23 @@ def exec (idna : Idna) (st : St) (toks : List String) : St × String :=
     let e := parseEnc enc
     let u := parseUnits units
     (st, s!"{dumpImpl idna (urlFromFilePath idna (decode e u) (fmtOf fmt))} ## ~")
+  | ["rt", fmt, enc, units] =>
+    let e := parseEnc enc
+    let f := fmtOf fmt
+    let r : String :=
+      match urlFromFilePath idna (decode e (parseUnits units)) f with
+      | none => "F"
+      | some u1 =>
+        match pathFromFileUrl u1 f with
+        | none => s!"u1={hx (serialize u1)} p1=F"
+        | some p1 =>
+          match urlFromFilePath idna (decode .u8 p1) f with
+          | none => s!"u1={hx (serialize u1)} p1={hx p1} u2=F"
+          | some u2 =>
+            match pathFromFileUrl u2 f with
+            | none => s!"u1={hx (serialize u1)} p1={hx p1} u2={hx (serialize u2)} p2=F"
+            | some p2 => s!"u1={hx (serialize u1)} p1={hx p1} u2={hx (serialize u2)} p2={hx p2}"
+    (st, r ++ " ## ~")
   | ["topath", fmt, slot] =>
     let k := slot.toNat!
     match st.objs[k]!.url with
